@@ -23,10 +23,13 @@ REPORTER = 'the user Reporter is modelled as a log of report() calls (ReporterLo
 H = 'GlobalCollector::handle_commands'
 COLL_DELIVERY = [H, 'drain_one', 'postprocess_span_collection', 'amend_span', 'amend_local_span', 'mount_danglings']
 
+KANI_ENV = 'Kani harnesses run on a scratch copy of the real crate with mechanical edits K1-K6 (vlib/kani.py): single-thread cell for LOCAL_SPAN_STACK, rand::random -> any, command senders replaced by a recording stub; Kani has one thread and no TLS destructors'
+API_SPLIT = 'Span::enter_with_parents is verified for 0 and 1 parents (the iterator-adapter chain costs CBMC minutes per parent); multi-parent behaviour is composed from issue_collect_token (element-wise, 2 items) and the submit filter (2 items)'
+
 PROPS = {
     'C01': {
         'verus': [('spsc', ['Sender::send', 'Sender::force_send', 'bounded', 'Receiver::try_recv']), ('coll', COLL_DELIVERY)],
-        'kani': [],
+        'kani': ['root_lifecycle', 'finish_submits_sampled_items_only', 'local_parent_guard_scope'],
         'assumptions': [RTRB, TLS, LOCK, COLL_ENV, COLL_STD, REPORTER,
                         'NOT decided: "within about one report interval" and liveness of the background thread (time/liveness are outside contract verification); flush() runs one cycle after everything that happened-before it (structural)'],
     },
@@ -40,7 +43,7 @@ PROPS = {
         'verus': [('coll', [H, 'postprocess_span_collection', 'amend_span', 'amend_local_span', 'mount_danglings']),
                   ('local', ['SpanQueue::add_event', 'SpanQueue::add_properties', 'SpanQueue::with_properties', 'SpanLine::add_event', 'SpanLine::add_properties', 'SpanLine::with_properties',
                              'LocalSpanStack::add_event', 'LocalSpanStack::add_properties', 'LocalSpanStack::with_properties', 'RawSpan::begin_with'])],
-        'kani': [],
+        'kani': ['add_event_handle', 'add_properties_handle', 'enter_with_parent_matches_model'],
         'assumptions': [COLL_ENV, COLL_STD, STD, 'strings are opaque values: "unchanged" means the same Cow value moved or cloned'],
     },
     'C08': {
@@ -50,7 +53,7 @@ PROPS = {
     },
     'C17': {
         'verus': [('coll', ['amend_local_span', 'mount_danglings', 'LocalSpansInner::to_span_records', 'postprocess_span_collection'])],
-        'kani': [],
+        'kani': ['push_child_spans_direct'],
         'assumptions': [COLL_STD, CLOCK, 'identical "up to the clock anchor": proved per anchor value'],
     },
     'C18': {
@@ -60,7 +63,7 @@ PROPS = {
     },
     'C10': {
         'verus': [('local', '*')],
-        'kani': [],
+        'kani': ['local_parent_guard_scope', 'no_local_parent_is_inert'],
         'assumptions': [IDS_NONZERO, NOW, STD, 'guards are !Send (type level: they hold an Rc) so a scope cannot leave its thread'],
     },
     'C12': {
@@ -77,9 +80,37 @@ PROPS = {
         'kani': [],
         'assumptions': ['JaegerReporter::convert + serialize produce, for a slice of records, bytes whose length is a function of that slice only (enc_len); what the bytes contain is C19', 'UdpSocket::send_to sends exactly the buffer it is given as one datagram (OS)', 'ghost log: every send in try_report goes through the logged wrapper (the raw send_to stub has `requires false`)'],
     },
+    'C02': {
+        'verus': [('local', ['SpanQueue::start_span', 'SpanQueue::finish_span', 'SpanQueue::add_event', 'SpanQueue::add_properties', 'SpanLine::start_span', 'SpanLine::finish_span', 'SpanLine::current_collect_token', 'SpanLine::new',
+                             'LocalSpanStack::enter_span', 'LocalSpanStack::exit_span', 'LocalSpanStack::current_collect_token', 'LocalSpanStack::register_span_line', 'LocalSpanStack::unregister_and_collect', 'RawSpan::begin_with']),
+                  ('coll', [H, 'postprocess_span_collection', 'amend_span', 'amend_local_span'])],
+        'kani': ['root_lifecycle', 'child_token_names_parent', 'issued_token_rewrites_parent_only', 'finish_submits_sampled_items_only', 'enter_with_parent_matches_model', 'next_id_formula_and_distinct'],
+        'assumptions': [KANI_ENV, API_SPLIT, COLL_ENV, COLL_STD, NOW, 'distinctness of span ids across threads rests on distinct random 32-bit prefixes (probabilistic, not an obligation); within a thread ids are distinct until the 32-bit counter wraps'],
+    },
+    'C05': {
+        'verus': [('local', ['SpanLine::new', 'SpanLine::start_span', 'SpanLine::add_event', 'SpanLine::add_properties', 'SpanLine::with_properties', 'SpanLine::current_collect_token'])],
+        'kani': ['root_lifecycle', 'finish_submits_sampled_items_only', 'issued_token_rewrites_parent_only', 'child_token_names_parent', 'push_child_spans_direct', 'add_event_handle', 'add_properties_handle'],
+        'assumptions': [KANI_ENV, API_SPLIT, 'composition: no command carrying an unsampled item ever enters a queue (submit filter), so by the collector oracle no record of an unsampled trace is produced'],
+    },
+    'C07': {
+        'verus': [('local', '*'), ('spsc', ['Sender::send', 'Sender::force_send', 'Receiver::try_recv', 'bounded']), ('jaeger', '*')],
+        'kani': ['span_of_no_trace', 'noop_span_never_calls_closures', 'no_local_parent_is_inert', 'root_without_reporter_is_noop', 'empty_parent_set', 'root_lifecycle', 'cancel_root', 'local_parent_guard_scope'],
+        'assumptions': [KANI_ENV, 'panic-freedom is proved per function / per state class listed; NOT covered: calls issued from inside property closures (re-entrancy through the RefCell of the local span stack), deadlock freedom in general, and calls made while thread-local storage is being torn down (Kani has no TLS destructors)',
+                        'non-blocking: Sender::send / force_send terminate (Verus decreases) and take no lock'],
+    },
+    'C11': {
+        'verus': [('local', ['SpanLine::current_collect_token', 'LocalSpanStack::current_collect_token'])],
+        'kani': ['root_lifecycle', 'finish_submits_sampled_items_only', 'span_of_no_trace', 'empty_parent_set', 'local_parent_guard_scope', 'child_token_names_parent'],
+        'assumptions': [KANI_ENV, 'round trip through traceparent text: C12'],
+    },
+    'C16': {
+        'verus': [('local', ['SpanLine::add_properties', 'SpanLine::with_properties', 'LocalSpanStack::add_properties', 'LocalSpanStack::with_properties', 'LocalSpanStack::enter_span', 'LocalSpanStack::add_event'])],
+        'kani': ['disabled_build_is_inert', 'noop_span_never_calls_closures', 'root_without_reporter_is_noop', 'no_local_parent_is_inert'],
+        'assumptions': [KANI_ENV, '"no thread": set_reporter is the only spawn site besides flush and both are cfg(feature = "enable") (syntactic)'],
+    },
     'C04': {
         'verus': [('spsc', ['Sender::force_send', 'Sender::send', 'bounded', 'Receiver::try_recv']), ('coll', [H])],
-        'kani': [],
+        'kani': ['cancel_root', 'finish_submits_sampled_items_only', 'root_without_reporter_is_noop'],
         'assumptions': [RTRB, TLS, LOCK],
     },
     'C09': {
